@@ -138,3 +138,50 @@ def state (s : State) (banks : List RegisterBank) (timeout : Nat) (showBanks : B
     memory s.mem ++ ft ++ tail
 
 end Dump
+
+/-! ### the `-d` wire table: `dump_values_grouped/ungrouped`, `dump_wire_subtable`, `find_table_widths`, `dump_wire_table_rows` -/
+
+namespace Dump
+
+def toUpperAscii (s : String) : String := String.ofList (s.toList.map fun c => if 'a' ≤ c && c ≤ 'z' then Char.ofNat (c.toNat - 32) else c)
+
+/-- `keys.sort_unstable_by(|a, b| a.to_ascii_uppercase().cmp(&b.to_ascii_uppercase()).then(a.cmp(&b)))` -/
+def sortKeys (keys : List String) : List String :=
+  (keys.toArray.qsort (fun a b => toUpperAscii a < toUpperAscii b || (toUpperAscii a == toUpperAscii b && a < b))).toList
+
+def valueWidthLen (v : WireValue) : Nat := ((match v.width with | .unlimited => 64 | .bits x => x) + 3) / 4 + 2
+
+def padRight (width : Nat) (s : String) : String := s ++ spaces (width - s.length)
+
+/-- `{:#0w$x}`: `0x` followed by the digits zero-padded to a total width of `w` -/
+def hexAlt (w : Nat) (n : Nat) : String := "0x" ++ toHexPad (w - 2) n
+
+def subtable (vals : AMap WireValue) (keys : List String) (label : String) (header : Bool) : String :=
+  if keys.isEmpty then "" else
+  let lens := keys.map fun k => match vals.get? k with | some v => valueWidthLen v | none => 0
+  let maxName := keys.foldl (fun m k => Nat.max k.utf8ByteSize m) 15
+  let maxValue := lens.foldl (fun m l => Nat.max l m) 22
+  let hd := if header then padRight maxName "Wire" ++ "  " ++ spaces (maxValue - 5) ++ "Value\n" else ""
+  let rows := (sortKeys keys).map fun k =>
+    match vals.get? k with
+    | some v => padRight maxName k ++ "  " ++ spaces (maxValue - valueWidthLen v) ++ hexAlt (valueWidthLen v) v.bits ++ "\n"
+    | none => ""
+  label ++ "\n" ++ hd ++ String.join rows ++ "\n"
+
+/-- the sub-tables of `dump_values`: label, keys, header flag -/
+def tableGroups (p : Program) (vals : AMap WireValue) (grouped : Bool) : List (String × List String × Bool) :=
+  let keys := vals.keys.filter fun k => !p.defaulted.contains k
+  if grouped then
+    let ty (k : String) : WireType := (p.wireTypes.get? k).getD .normal
+    [("Values of inputs to built-in components:", keys.filter (fun k => ty k == .builtinInput), false),
+     ("Values of outputs of built-in components:", keys.filter (fun k => ty k == .builtinOutput), false),
+     ("Values of register bank signals:", keys.filter (fun k => ty k == .bankInput || ty k == .bankOutput || ty k == .bankSpecial), false),
+     ("Values of other wires:", keys.filter (fun k => ty k == .normal), false)]
+  else
+    [("Values of wires:", keys.filter (fun k => !p.constants.contains k), true)]
+
+/-- `dump_values` (from its first `Values of ...` line on) -/
+def wireTable (p : Program) (vals : AMap WireValue) (grouped : Bool) : String :=
+  String.join ((tableGroups p vals grouped).map fun g => subtable vals g.2.1 g.1 g.2.2)
+
+end Dump
